@@ -3655,6 +3655,13 @@ impl Zeroconf {
             return;
         }
         if !repeating {
+            // A new search for the same host name replaces the earlier one, including
+            // its pending retransmission, so that only one query schedule exists.
+            let hostname_lower = hostname.to_lowercase();
+            self.retransmissions.retain(|rerun| {
+                !matches!(&rerun.command, Command::ResolveHostname(h, _, _, _) if h.to_lowercase() == hostname_lower)
+            });
+
             self.add_hostname_resolver(hostname.to_owned(), listener.clone(), timeout);
             // if we already have the records in our cache, just send them
             self.query_cache_for_hostname(&hostname, listener.clone());
